@@ -93,6 +93,7 @@ class WorldC07(World):
         self.pinfo = {}         # name -> {'type', 'built'}
         self.members = {}       # name -> reference membership (list of species names)
         self.rows_used = None
+        self.plan = []
         self.orders_written = set()
         self.n_writes = 0
         self.cleared = set()
@@ -186,6 +187,41 @@ class WorldC07(World):
         return {k: rng.choice(v) for k, v in UNIT_CHOICES.items()}
 
     def gen_op(self, rng):
+        if self.plan:
+            return self.plan.pop(0)
+        op = self._gen_op0(rng)
+        if op is not None and op['op'] in ('write_cti', 'write_thermo_yaml', 'write_yaml') and op['args'].get('to_file') \
+                and rng.random() < 0.06:
+            # scripted: the disk fills up half-way through a write; the caller frees space and writes the same thing again;
+            # later the interpreter collects what the failed call left behind
+            import copy as _copy
+            first = _copy.deepcopy(op)
+            first['fault'] = {'kind': 'write_error', 'k': 0.5, 'errno': 'ENOSPC'}
+            first['gc'] = False
+            second = _copy.deepcopy(op)
+            second['fault'] = None
+            second['gc'] = False
+            if 'T' in second['args']:
+                second['args']['T'] = round(second['args']['T'] + 53.0, 2)     # (other numbers than the failed attempt's)
+            for k_, v_ in list((second['args'].get('opts') or {}).items()):
+                if isinstance(v_, (int, float)) and not isinstance(v_, bool):
+                    second['args']['opts'][k_] = v_ * 2 + 1
+            third = _copy.deepcopy(second)
+            third['gc'] = True
+            self.plan = [second, third]
+            return first
+        if op is not None:
+            # when the interpreter gets round to finalising handles an earlier failed call may have left open
+            op['gc'] = rng.random() < 0.5
+            failed = sorted(self.kit.failed_last)
+            if failed and isinstance(op.get('args'), dict) and 'path' in op['args'] and op.get('fault') is None:
+                # right after a failed write: the caller tries the same file again, before anything has been collected
+                if rng.random() < 0.6:
+                    op['args']['path'] = rng.choice(failed)
+                    op['gc'] = False
+        return op
+
+    def _gen_op0(self, rng):
         sw = self.ctx.swarm
         c = rng.randrange(sw['n_clients'])
         if self.md is None:
